@@ -274,7 +274,7 @@ class CFG:
                                     classes.add(model.NONEXC)
                     if not classes:
                         return
-            elif c.kind in ('finally', 'with'):
+            elif c.kind in ('finally', 'with') and not getattr(c, 'jumps_only', False):
                 c.pending.setdefault('exc', []).append((src, frozenset(classes), i))
                 return
             i -= 1
@@ -337,6 +337,18 @@ class CFG:
             fr = self._cm_stack.pop()
             saved = (self.res, self.cur_scope, self._inlining)
             self.res, self.cur_scope, self._inlining = fr['res'], fr['scope'], fr['inlining']
+            # a generator that yields at the top level of its body, outside any try: what follows the yield runs when the
+            # block is left normally or by return / break / continue (the with statement resumes the generator), and is
+            # skipped when the block raises (the exception is thrown in at the yield and nothing catches it)
+            gen_fn = parent(s)
+            post: List[ast.stmt] = []
+            if isinstance(gen_fn, FuncNode) and s in gen_fn.body:
+                post = gen_fn.body[gen_fn.body.index(s) + 1:]
+            jc = None
+            if post:
+                jc = _Ctx('finally', node=s)
+                jc.jumps_only = True  # type: ignore[attr-defined]
+                self.ctx.append(jc)
             try:
                 if fr['as'] is not None:
                     self._store(fr['as'], s.value.value if s.value.value is not None else ast.copy_location(ast.Constant(value=None), s), fr['stmt'])
@@ -344,6 +356,20 @@ class CFG:
             finally:
                 self.res, self.cur_scope, self._inlining = saved
                 self._cm_stack.append(fr)
+                if jc is not None:
+                    self.ctx.pop()
+            if jc is not None:
+                normal = self.cur
+
+                def make_clone(frontier: Frontier, how: str) -> Optional[Node]:
+                    if not frontier:
+                        return None
+                    self.cur = frontier
+                    n = self._node('finally_enter', s, post[0].lineno, how=how, cm_post=True)
+                    self._build_body(post)
+                    return n
+                self._flush_pending(jc, make_clone)
+                self.cur = normal
             return
         before = len(self.nodes)
         self._expr(s.value)
@@ -1549,6 +1575,13 @@ class RaiseModel:
             return {'KeyError'}, False
         if k == 'del_sub':
             return {'KeyError'}, False
+        if k == 'store_sub':
+            # `m[k] = v` on a mapping the caller may have supplied runs the caller's `__setitem__` (a bounded,
+            # validating or remote cache): it may raise; on the package's own dicts it does not
+            recv = getattr(n.ast, 'value', None)
+            if isinstance(recv, ast.Name) and may_be_user_mapping(cfg, recv):
+                return {ANY}, False
+            return set(), False
         if k == 'divide':
             return {'ZeroDivisionError'}, False
         if k == 'unpack':
@@ -1843,6 +1876,28 @@ def is_user_value(cfg: CFG, name: ast.Name, _depth: int = 0) -> bool:
             finally:
                 cfg.cur_scope = saved
     return False
+
+
+def may_be_user_mapping(cfg: CFG, name: ast.Name) -> bool:
+    """Can the variable denote an object the caller handed in - a parameter, or a single-assignment choice
+    (`cache if cache is not None else {}`, `cache or {}`) one of whose alternatives is a parameter?"""
+    if is_user_value(cfg, name):
+        return True
+    from .match import closure_value
+    bs = cfg.cur_scope.binding_scope(name.id)
+    if bs is None or bs.kind != 'function' or name.id in bs.params:
+        return False
+    v = closure_value(bs, name.id)
+    todo, leaves = [v], []
+    while todo:
+        x = todo.pop()
+        if isinstance(x, ast.IfExp):
+            todo += [x.body, x.orelse]
+        elif isinstance(x, ast.BoolOp):
+            todo += list(x.values)
+        elif x is not None:
+            leaves.append(x)
+    return any(isinstance(x, ast.Name) and x.id in bs.params and x.id not in ('self', 'cls') for x in leaves)
 
 
 def callee_info(cfg: CFG, call: ast.Call) -> dict:
